@@ -300,5 +300,48 @@ def thorough_a(ctx: Ctx) -> None:
     ctx.floor(rule, 'other consumers of the model visitor', sum(1 for o in ctx.obligations if o.rule == rule and 'consumer of' in o.instance), 6)
 
 
-RULES = [rule_a, rule_b]
+def rule_c(ctx: Ctx) -> None:
+    """The matching context (model group and occurrence counters) that the model visitor supplies reaches the XSD 1.1 wildcard
+    precedence test: parameter forwarding along  ModelVisitor.match_element -> <particle>.match -> is_matching."""
+    rule = 'C01.c'
+    idx = ctx.idx
+    mv = idx.func('xmlschema.validators.models.ModelVisitor.match_element')
+    ctx.analysed(mv.qualname)
+    cs = [c for c in calls(mv.node) if text(c.func) == 'self.element.match']
+    ok = len(cs) == 1 and {k.arg: text(k.value) for k in cs[0].keywords} == {'group': 'self.root', 'occurs': 'self.occurs'} and text(cs[0].args[0]) == mv.params[1]
+    ctx.ob(rule, 'ModelVisitor.match_element hands the root group and the occurrence counters to the particle', mv.loc(), ok, '', key='ModelVisitor.match_element|context')
+    # receivers: every is_matching that consumes `occurs`/`group`
+    consumers = [f for f in idx.functions.values() if f.name == 'is_matching' and f.cls is not None and
+                 {'group', 'occurs'} <= set(f.params) and f.module.name.startswith('xmlschema.validators')]
+    ctx.floor(rule, 'is_matching implementations that use the occurrence context', len(consumers), 1)
+    # forwarding wrappers: every `match` (and `is_matching`) in validators/ that delegates to self.is_matching / super().is_matching
+    n = 0
+    for f in idx.iter_functions('validators'):
+        if f.name not in ('match', 'is_matching') or f.cls is None or isinstance(f.node, ast.Lambda):
+            continue
+        for c in calls(f.node):
+            tgt = text(c.func)
+            if tgt not in ('self.is_matching', 'super().is_matching'):
+                continue
+            if f.node.args.kwarg is None and not {'group', 'occurs'} & set(f.params):
+                continue     # this method does not receive the context at all
+            n += 1
+            star = [text(k.value) for k in c.keywords if k.arg is None]
+            named = {k.arg: text(k.value) for k in c.keywords if k.arg}
+            ok = True
+            for p in ('group', 'occurs'):
+                if p in f.params:
+                    ok = ok and (named.get(p) == p or (len(c.args) > 2 and p in [text(a) for a in c.args]))
+                elif f.node.args.kwarg is not None:
+                    ok = ok and f.node.args.kwarg.arg in star     # arrives in **kwargs: must be passed on
+            ctx.ob(rule, f'{f.qualname.split(".", 2)[-1]}: the matching context is forwarded to {tgt}(…)', f.loc(c), ok,
+                   '' if ok else 'the occurrence counters / model group given by the model visitor are dropped here: the XSD 1.1 wildcard '
+                   'always takes its "no occurrence information" branch and lets an overlapping sibling element block it',
+                   key=f'{f.qualname}|forward|{tgt}')
+    ctx.floor(rule, 'forwarding sites of the matching context', n, 2)
+    ctx.explain('C01.c: keyword forwarding of group/occurs from the model visitor through every match()/is_matching() wrapper to '
+                'the wildcard implementations that consume them.')
+
+
+RULES = [rule_a, rule_b, rule_c]
 THOROUGH = [thorough_a]
